@@ -131,6 +131,34 @@ func solveAll(trs []*Tr, prop string, timeoutS int, confirm bool) ([]*OblResult,
 			}
 			or := &OblResult{Obl: o}
 			results = append(results, or)
+			if o.Kind == "cover" {
+				tr, o := tr, o
+				for _, s := range o.Sites {
+					s := s
+					q := tr.script(s.Goal, false)
+					jobs = append(jobs, job{query: q, timeout: timeoutS, order: solverOrder(q), done: func(r SolveResult) {
+						mu.Lock()
+						defer mu.Unlock()
+						or.Secs += r.Secs
+						or.Solver = r.Solver
+						st := "unsat" // reporting convention: "unsat" = fine
+						if r.Status == "unsat" {
+							st = "unreachable"
+						} else if r.Status != "sat" {
+							st = "unsat" // unknown/timeout: reachability is not refuted; do not alarm
+						}
+						or.Sites = append(or.Sites, &SiteResult{Obl: o, Site: s, Res: r, Status: st})
+						all := true
+						for _, sr := range or.Sites {
+							if sr.Status != "unsat" {
+								all = false
+							}
+						}
+						or.Discharged = all && len(or.Sites) == len(o.Sites)
+					}})
+				}
+				continue
+			}
 			var goals []string
 			for _, s := range o.Sites {
 				if s.Goal != "false" {
